@@ -127,8 +127,12 @@ Labels(e) ==
          IF e.nearedge THEN {} ELSE
             L(e.incone /\ (e.words # 4 \/ ~e.parallel), "C14/cone")
             \cup L(~e.incone /\ (e.words # 8 \/ ~e.fallback), "C14/cone") \cup L(~e.insat, "C14/cone")
+    \* K rejected proposals, then an accepted one: 4 words per proposal, output = the accepted proposal
+    [] e.sp = "so3" /\ e.op = "rejectrun" ->
+         L(e.words # 4 * (e.K + 1) \/ ~e.first_accepted \/ ~e.insat, "C14/rejection")
     [] e.sp = "cmp" /\ e.op = "laws" ->
          L(~e.dist, "C13/distance") \cup L(~e.interp \/ ~e.enforce \/ ~e.sat, "C13/componentwise")
+         \cup L(~e.c10_end, "C10/endpoint") \cup L(~e.c10_prop, "C10/proportional") \cup L(~e.c10_rev, "C10/reverse")
     [] e.sp = "cmp" /\ e.op = "sample" ->
          L(~e.stream, "C13/stream-order") \cup L(~e.resolution, "C13/resolution") \cup L(~e.insat, "C11/sample-sat")
     [] e.op = "equals-compound" -> L(~e.ok, "C13/se-equals-compound")
